@@ -257,6 +257,15 @@ def main(argv):
                                    % ((o.meta.get('detail') or '')[:80], o.meta.get('standin'))))
             del vio_groups[name]
             continue
+        ran = bool(native) and not native.get('error') and isinstance(native.get('observed'), dict) and (native['observed'].get('cases') or 0) > 0
+        if not confirmed and o.meta.get('replay_decides') and ran:
+            # the clause speaks about the code at a coarser abstraction than the property (e.g. "the direction is the vector transform of the
+            # beam axis" as an uninterpreted term): a refutation means the code was written differently, not that it behaves differently; the
+            # contract names a native oracle for exactly this clause, it ran on the real code and found no failing input
+            needs_contract.append((name, 'the clause is stated over uninterpreted operations (contract flag replay_decides) and its native oracle ran %d cases '
+                                   'on the real code without a failing input' % native['observed'].get('cases')))
+            del vio_groups[name]
+            continue
         if not confirmed and (new_ob or new_fields):
             why = ('obligation not in the ledger (never discharged on the unchanged tree)' if new_ob else
                    'function touches state unknown to the contracts: %s' % ', '.join(new_fields[:4]))
